@@ -9,6 +9,7 @@ from .core import AnalysisError, Loc, Report, norm
 from .inifront import IniConfig, Obj
 from .config_graph import ConfigGraph
 from .guards import atoms, path_conditions
+from .resolve import split_atom
 from .normalize import canon
 from .pyfront import ClassInfo, Program, body_without_docstring, param_names, self_attr
 
@@ -401,15 +402,17 @@ def check_landing_table(prog: Program, rep: Report) -> None:
         rep.ob("R11.4-landing-direction", dirarg == idx, Loc(file, a.lineno, f"{h.name}.send_event_time"), a,
                "the neighbour cell and the boundary coordinate must be taken in the same direction")
     # the selected boundary and direction are stored together under the 'smaller time' guard
-    sel = [n for n in ast.walk(fn) if isinstance(n, ast.If) and isinstance(n.test, ast.Compare) and isinstance(n.test.ops[0], ast.Lt)
+    sel = [n for n in ast.walk(fn) if isinstance(n, ast.If) and isinstance(n.test, ast.Compare) and len(n.test.ops) == 1
            and any(isinstance(a, ast.Assign) and self_attr(a.targets[0]) == "_boundary" for a in n.body)]
     ok = False
     if len(sel) == 1:
         names = {self_attr(a.targets[0]): norm(a.value) for a in sel[0].body if isinstance(a, ast.Assign) and self_attr(a.targets[0])}
         loopvars = [norm(l.target.elts[0]) for l in ast.walk(fn) if isinstance(l, ast.For) and isinstance(l.target, ast.Tuple)]
-        ok = "_boundary" in names and "_direction" in names and names["_direction"] in loopvars \
-            and any(isinstance(a, ast.Assign) and norm(a.targets[0]) == norm(sel[0].test.comparators[0]) and norm(a.value) == norm(sel[0].test.left)
-                    for a in sel[0].body)
+        at = atoms(sel[0].test)
+        sp = split_atom(at[0]) if len(at) == 1 else None
+        # `candidate < current minimum` (however oriented): the minimum is updated with the candidate in the same block
+        ok = sp is not None and sp[1] == "<" and "_boundary" in names and "_direction" in names and names["_direction"] in loopvars \
+            and any(isinstance(a, ast.Assign) and norm(a.targets[0]) == sp[2] and norm(a.value) == sp[0] for a in sel[0].body)
     rep.ob("R11.4-select-earliest", ok, Loc(file, sel[0].lineno if sel else fn.lineno, f"{h.name}.send_event_time"),
            sel[0].test if sel else "selection", "boundary and direction of the earliest crossing must be stored together")
     snaps = [a for a in ast.walk(out) if isinstance(a, ast.Assign) and isinstance(a.targets[0], ast.Subscript)
@@ -460,6 +463,21 @@ def _comprehension_facts(fn: ast.FunctionDef) -> Dict[str, object]:
         if isinstance(n, ast.Call) and norm(n.func).endswith("yield_surplus"):
             facts["surplus"] = True
     return facts
+
+
+def _extracts_every(rets, fn) -> bool:
+    """one of the returns is tuple(extract_from_global_state(i) for i in <the looked-up identifiers>) without a filter"""
+    from .resolve import Resolver
+    R = Resolver(fn)
+    for r in rets:
+        v = r.value
+        if isinstance(v, ast.Call) and norm(v.func) in ("tuple", "list") and len(v.args) == 1 and isinstance(v.args[0], (ast.GeneratorExp, ast.ListComp)):
+            g = v.args[0]
+            if len(g.generators) == 1 and not g.generators[0].ifs and isinstance(g.elt, ast.Call) and norm(g.elt.func).endswith("extract_from_global_state") \
+                    and len(g.elt.args) == 1 and norm(g.elt.args[0]) == norm(g.generators[0].target) \
+                    and "get_info_internal_state" in R.text(g.generators[0].iter):
+                return True
+    return False
 
 
 def check_tagger_algebra(prog: Program, rep: Report) -> None:
@@ -542,7 +560,7 @@ def check_tagger_algebra(prog: Program, rep: Report) -> None:
            "target = internal_state[sampled cell] of the veto tagger", "the target of a cell-veto event must be the occupant list of the sampled cell in the veto tagger's own cell occupancy")
     if ga is not None:
         rets = [n for n in ast.walk(ga) if isinstance(n, ast.Return)]
-        rep.ob("R10.2-target-all-occupants", any("for identifier in" in norm(r.value) for r in rets) and any(norm(r.value) == "(None,)" for r in rets),
+        rep.ob("R10.2-target-all-occupants", _extracts_every(rets, ga) and any(norm(r.value) == "(None,)" for r in rets),
                Loc(med.file, ga.lineno, "Mediator.get_arguments_cell_veto_event_handler"), "extract every occupant, or (None,) for an empty cell",
                "every occupant of the target cell must be handed to the veto handler; an empty cell yields None")
     # veto handler: target cell = translate(active_cell, sampled relative cell)
